@@ -1,6 +1,6 @@
 #!/bin/bash
 # run_thorough.sh <ID>...: runs the thorough tier of each given property sequentially; one line per property in sweeps/thorough.log
-cd /verif || exit 1
+cd "$(dirname "$0")/.." || exit 1
 mkdir -p sweeps
 for id in "$@"; do
   t0=$(date +%s)
